@@ -70,10 +70,20 @@ type Env struct {
 	ValSet   *tmtypes.ValidatorSet
 	Genesis  c4eapp.GenesisState
 	StateRaw []byte
+	DB       dbm.DB // the application's database (MemDB), kept for Restart
 }
 
-func newApp() *c4eapp.App {
-	db := dbm.NewMemDB()
+func newApp() *c4eapp.App { return newAppOn(dbm.NewMemDB()) }
+
+// Restart replaces the application of e by a new instance (fresh process state) over the same committed store.
+func (e *Env) Restart() {
+	if e.DB == nil {
+		panic("restart: environment without database handle")
+	}
+	e.App = newAppOn(e.DB)
+}
+
+func newAppOn(db dbm.DB) *c4eapp.App {
 	encoding := c4eapp.MakeEncodingConfig()
 	return c4eapp.New(log.NewNopLogger(), db, nil, true, map[int64]bool{}, c4eapp.DefaultNodeHome, 0,
 		appparams.EncodingConfig(encoding), simapp.EmptyAppOptions{})
@@ -94,7 +104,8 @@ func DefaultMinterGenesis() *cfemintertypes.GenesisState {
 }
 
 func New(opts Options) *Env {
-	app := newApp()
+	db := dbm.NewMemDB()
+	app := newAppOn(db)
 	bondDenom := opts.BondDenom
 	if bondDenom == "" {
 		bondDenom = BondDenom
@@ -190,7 +201,7 @@ func New(opts Options) *Env {
 		ValidatorsHash: valSet.Hash(), NextValidatorsHash: valSet.Hash()}
 	app.BeginBlock(abci.RequestBeginBlock{Header: hdr})
 	ctx := app.BaseApp.NewContext(false, hdr).WithLogger(log.NewNopLogger())
-	return &Env{App: app, Ctx: ctx, Users: users, ValAddr: sdk.ValAddress(val.Address), ValSet: valSet, Genesis: genesisState, StateRaw: stateBytes}
+	return &Env{App: app, Ctx: ctx, Users: users, ValAddr: sdk.ValAddress(val.Address), ValSet: valSet, Genesis: genesisState, StateRaw: stateBytes, DB: db}
 }
 
 // Fork returns a cache-wrapped copy of ctx with a fresh event manager.
@@ -244,6 +255,37 @@ func (e *Env) Deliver(ctx sdk.Context, msg sdk.Msg) (outcome string, detail stri
 		events = res.Events
 	}
 	return "ok", "", events, res
+}
+
+// DeliverTx reproduces what baseapp.runTx / runMsgs does for a transaction of several messages (and x/gov for the
+// messages of a passed proposal): every handler runs on one cache context, which is written back only if all succeed.
+func (e *Env) DeliverTx(ctx sdk.Context, msgs ...sdk.Msg) (outcome string, detail string) {
+	for i, msg := range msgs {
+		var verr error
+		if p := Try(func() { verr = msg.ValidateBasic() }); p != "" {
+			return "panic", fmt.Sprintf("validate-basic of message %d: %s", i, p)
+		}
+		if verr != nil {
+			return "rejected", fmt.Sprintf("validate-basic of message %d: %s", i, verr)
+		}
+	}
+	cctx, write := ctx.CacheContext()
+	cctx = cctx.WithEventManager(sdk.NewEventManager())
+	for i, msg := range msgs {
+		handler := e.App.MsgServiceRouter().Handler(msg)
+		if handler == nil {
+			return "rejected", fmt.Sprintf("message %d: no handler", i)
+		}
+		var err error
+		if p := Try(func() { _, err = handler(cctx, msg) }); p != "" {
+			return "panic", fmt.Sprintf("handler of message %d: %s", i, p)
+		}
+		if err != nil {
+			return "rejected", fmt.Sprintf("handler of message %d: %s", i, err)
+		}
+	}
+	write()
+	return "ok", ""
 }
 
 // Gov is the governance authority address.
